@@ -276,3 +276,582 @@ Proof.
   - intros d [].
   - vm_compute. reflexivity.
 Qed.
+
+(* ------------------------------------------------------------------------------------------ *)
+(* C17 on the repaired model: after the pre-check has passed, registering the extensions of the
+   file cannot fail, so every failure happens before anything of the file is written *)
+
+Lemma get_package_loop_children Ta Tb :
+  (forall q, n_children (get_node Tb q) = n_children (get_node Ta q)) ->
+  forall ps cur ex, get_package_loop Tb cur ps ex = get_package_loop Ta cur ps ex.
+Proof.
+  intros H. induction ps as [|p ps IH]; intros cur ex; cbn [get_package_loop]; [reflexivity|].
+  rewrite H. destruct (mem_name p (n_children (get_node Ta cur))); [apply IH|reflexivity].
+Qed.
+
+Lemma check_exts_add_exts o : forall exts seen Ta Tb,
+  (forall q, n_children (get_node Tb q) = n_children (get_node Ta q)) ->
+  (forall q m t, seen_ext m t seen = false ->
+                 ext_find m t (n_exts (get_node Tb q)) = ext_find m t (n_exts (get_node Ta q))) ->
+  check_exts Ta exts seen = None -> exists Tb', add_exts Tb o exts = (Tb', Ok).
+Proof.
+  induction exts as [|[[pkg m] t] r IH]; intros seen Ta Tb Hc He; cbn [check_exts add_exts].
+  - intros _. eexists; reflexivity.
+  - unfold add_extension, get_package.
+    destruct (negb (name_eqb pkg []) && negb (proper_prefix pkg m)); [discriminate|].
+    rewrite (get_package_loop_children Ta Tb Hc).
+    destruct (get_package_loop Ta [] (prefixes pkg) true) as [p|]; [|discriminate].
+    destruct (seen_ext m t seen) eqn:Es; [discriminate|].
+    destruct (ext_find m t (n_exts (get_node Ta p))) eqn:Ef; [discriminate|].
+    intros Hr. unfold add_ext_node. rewrite (He p m t Es), Ef.
+    apply (IH ((m, t) :: seen) Ta); [| |exact Hr].
+    + intros q. rewrite get_node_set. destruct (name_eqb q p) eqn:Eq; [|apply Hc].
+      apply name_eqb_eq in Eq. subst q. cbn [add_ext n_children]. apply Hc.
+    + intros q m' t' Hs. cbn [seen_ext] in Hs. apply orb_false_iff in Hs as [Hk Hs].
+      rewrite get_node_set. destruct (name_eqb q p) eqn:Eq; [|now apply He].
+      apply name_eqb_eq in Eq. subst q. cbn [add_ext n_exts ext_find]. rewrite Hk. now apply He.
+Qed.
+
+Lemma commit_syms_children nd fid syms : n_children (commit_syms nd fid syms) = n_children nd.
+Proof.
+  unfold commit_syms. revert nd. induction syms as [|x r IH]; intros nd; cbn [fold_left]; [reflexivity|].
+  now rewrite IH.
+Qed.
+Lemma commit_syms_exts nd fid syms : n_exts (commit_syms nd fid syms) = n_exts nd.
+Proof.
+  unfold commit_syms. revert nd. induction syms as [|x r IH]; intros nd; cbn [fold_left]; [reflexivity|].
+  now rewrite IH.
+Qed.
+Lemma commit_syms_files nd fid syms : n_files (commit_syms nd fid syms) = n_files nd.
+Proof.
+  unfold commit_syms. revert nd. induction syms as [|x r IH]; intros nd; cbn [fold_left]; [reflexivity|].
+  now rewrite IH.
+Qed.
+
+Lemma failed_import_fx_keeps_table T f T' e :
+  deps_settled import_fx T f -> import_fx f T = (T', Err e) -> T' = T.
+Proof.
+  destruct f as [fid pkg deps syms exts]. intros [[p Hp] Hd]. cbn [ffid fpkg fdeps] in *.
+  unfold import_fx in *. rewrite import_gen_unfold. unfold import_body. rewrite Hp.
+  destruct (mem_N fid (n_files (get_node T p))) eqn:Hm; [discriminate|].
+  rewrite (import_list_settled _ _ _ Hd).
+  destruct (check_exts T exts []) as [e1|] eqn:Ec.
+  - rewrite Hm. intros H; inversion H; reflexivity.
+  - destruct (import_file_node T p fid syms) as [[T3 imp] [|e3]] eqn:Ef.
+    + destruct imp; [|discriminate]. intros H. exfalso.
+      unfold import_file_node in Ef. rewrite Hm in Ef.
+      destruct (check_syms syms (n_symbols (get_node T p))); [discriminate|].
+      inversion Ef; subst T3. clear Ef.
+      destruct (check_exts_add_exts fid exts [] T
+                  (set_node T p (add_file (commit_syms (get_node T p) fid syms) fid))) as [Tb' Hb].
+      * intros q. rewrite get_node_set. destruct (name_eqb q p) eqn:Eq; [|reflexivity].
+        apply name_eqb_eq in Eq. subst q. cbn [add_file n_children]. apply commit_syms_children.
+      * intros q m t _. rewrite get_node_set. destruct (name_eqb q p) eqn:Eq; [|reflexivity].
+        apply name_eqb_eq in Eq. subst q. cbn [add_file n_exts]. now rewrite commit_syms_exts.
+      * exact Ec.
+      * rewrite Hb in H. discriminate.
+    + destruct imp; intros H; inversion H; subst; exact (import_file_node_err _ _ _ _ _ _ _ Ef).
+Qed.
+
+Lemma failed_import_fx_is_noop_lemma T f T' e :
+  deps_settled import_fx T f -> import_fx f T = (T', Err e) ->
+  T' = T /\ forall q, observe_with import_fx T' q = observe_with import_fx T q.
+Proof.
+  intros Hg H. assert (E : T' = T) by (eapply failed_import_fx_keeps_table; eauto).
+  split; [exact E|]. now apply observe_eq.
+Qed.
+
+Lemma failed_import_fx_repeats_lemma T f T' e :
+  deps_settled import_fx T f -> import_fx f T = (T', Err e) -> import_fx f T' = (T', Err e).
+Proof.
+  intros Hg H. assert (E : T' = T) by (eapply failed_import_fx_keeps_table; eauto).
+  subst. exact H.
+Qed.
+
+(* the repaired model does reject the witnesses of the pinned model before writing anything *)
+Lemma fx_nonvacuous :
+  deps_settled import_fx [] wX /\ import_fx wX [] = ([], Err (EExt [7%N] 100%Z)).
+Proof.
+  split; [split|].
+  - exists []. reflexivity.
+  - intros d [].
+  - vm_compute. reflexivity.
+Qed.
+
+(* ------------------------------------------------------------------------------------------ *)
+(* C16, concurrency: lock discipline of the programs and absence of races in the model *)
+
+(* thread-local discipline: started with the locks h, the program takes no lock it already
+   holds, releases only locks it holds, reads a map of a node only while holding R or W of that
+   node and writes only while holding W, whatever the reads return; Q holds at the end *)
+Fixpoint discQ {R : Type} (h : held) (m : prog R) (Q : R -> held -> Prop) : Prop :=
+  match m with
+  | Ret r => Q r h
+  | RLock p k => holds_any h p = false /\ discQ ((p, false) :: h) k Q
+  | WLock p k => holds_any h p = false /\ discQ ((p, true) :: h) k Q
+  | RUnlock p k => holds h p false = true /\ discQ (release h p false) k Q
+  | WUnlock p k => holds h p true = true /\ discQ (release h p true) k Q
+  | Rd p f k => holds_any h p = true /\ forall nd, discQ h (k nd) Q
+  | Wr p f u k => holds h p true = true /\ discQ h k Q
+  | NewChild p c k => holds h p true = true /\ discQ h k Q
+  end.
+
+(* balanced: started without locks, disciplined, and ends without locks *)
+Definition bal {R : Type} (m : prog R) : Prop := discQ [] m (fun _ h => h = []).
+
+Lemma discQ_mono {R : Type} (m : prog R) : forall h (Q Q' : R -> held -> Prop),
+  (forall r h', Q r h' -> Q' r h') -> discQ h m Q -> discQ h m Q'.
+Proof.
+  induction m as [r|p k IH|p k IH|p k IH|p k IH|p f k IH|p f u k IH|p c k IH]; intros h Q Q' HQ; cbn [discQ].
+  - apply HQ.
+  - intros [H1 H2]; split; [exact H1|]. eapply IH; eauto.
+  - intros [H1 H2]; split; [exact H1|]. eapply IH; eauto.
+  - intros [H1 H2]; split; [exact H1|]. eapply IH; eauto.
+  - intros [H1 H2]; split; [exact H1|]. eapply IH; eauto.
+  - intros [H1 H2]; split; [exact H1|]. intros nd. eapply IH; eauto.
+  - intros [H1 H2]; split; [exact H1|]. eapply IH; eauto.
+  - intros [H1 H2]; split; [exact H1|]. eapply IH; eauto.
+Qed.
+
+Lemma discQ_bind {A B : Type} (m : prog A) (g : A -> prog B) : forall h (Q : B -> held -> Prop),
+  discQ h m (fun r h' => discQ h' (g r) Q) -> discQ h (bind m g) Q.
+Proof.
+  induction m as [r|p k IH|p k IH|p k IH|p k IH|p f k IH|p f u k IH|p c k IH]; intros h Q; cbn [discQ bind].
+  - auto.
+  - intros [H1 H2]; split; auto.
+  - intros [H1 H2]; split; auto.
+  - intros [H1 H2]; split; auto.
+  - intros [H1 H2]; split; auto.
+  - intros [H1 H2]; split; auto.
+  - intros [H1 H2]; split; auto.
+  - intros [H1 H2]; split; auto.
+Qed.
+
+Lemma bal_bind {A B : Type} (m : prog A) (g : A -> prog B) (Q : B -> held -> Prop) :
+  bal m -> (forall r, discQ [] (g r) Q) -> discQ [] (bind m g) Q.
+Proof.
+  intros Hm Hg. apply discQ_bind. eapply discQ_mono; [|exact Hm].
+  intros r h' E. cbn beta in E. subst h'. apply Hg.
+Qed.
+
+Lemma holds_any_r p : holds_any [(p, false)] p = true.
+Proof. unfold holds_any. cbn. rewrite name_eqb_refl. cbn. reflexivity. Qed.
+Lemma holds_any_w p : holds_any [(p, true)] p = true.
+Proof. unfold holds_any. cbn. rewrite name_eqb_refl. reflexivity. Qed.
+Lemma holds_w p : holds [(p, true)] p true = true.
+Proof. cbn. rewrite name_eqb_refl. reflexivity. Qed.
+Lemma holds_r p : holds [(p, false)] p false = true.
+Proof. cbn. rewrite name_eqb_refl. reflexivity. Qed.
+Lemma release_r p : release [(p, false)] p false = [].
+Proof. cbn. rewrite name_eqb_refl. reflexivity. Qed.
+Lemma release_w p : release [(p, true)] p true = [].
+Proof. cbn. rewrite name_eqb_refl. reflexivity. Qed.
+
+Ltac disc :=
+  repeat (cbn [discQ];
+          rewrite ?holds_any_r, ?holds_any_w, ?holds_w, ?holds_r, ?release_r, ?release_w;
+          match goal with
+          | |- _ /\ _ => split
+          | |- forall _, _ => intro
+          | |- true = true => reflexivity
+          | |- false = false => reflexivity
+          | |- holds_any [] _ = false => reflexivity
+          | |- @eq held [] [] => reflexivity
+          end).
+
+Lemma bal_import_package_prog cur o p : bal (import_package_prog cur o p).
+Proof.
+  unfold bal, import_package_prog. disc.
+  destruct (sym_find p (n_symbols nd)) as [e|].
+  - destruct (e_pkg e); disc.
+  - disc. destruct (sym_find p (n_symbols nd0)) as [e|].
+    + destruct (e_pkg e); disc.
+    + disc.
+Qed.
+
+Lemma bal_import_packages_loop_prog o ps : forall cur, bal (import_packages_loop_prog o cur ps).
+Proof.
+  induction ps as [|p ps IH]; intros cur; cbn [import_packages_loop_prog].
+  - unfold bal. disc.
+  - apply bal_bind; [apply bal_import_package_prog|].
+    intros [[c|]|e]; [apply IH| |]; disc.
+Qed.
+
+Lemma bal_get_package_loop_prog ex ps : forall cur, bal (get_package_loop_prog cur ps ex).
+Proof.
+  induction ps as [|p ps IH]; intros cur; cbn [get_package_loop_prog]; unfold bal.
+  - disc.
+  - disc. destruct (mem_name p (n_children nd)); [apply IH|disc].
+Qed.
+
+Lemma disc_commit_loop p fid syms (k : prog (bool * res)) Q :
+  discQ [(p, true)] k Q ->
+  discQ [(p, true)]
+        (fold_right (fun x k0 => Wr p FSymbols (fun nd => add_symbol nd x (mkEntry fid false)) k0) k syms) Q.
+Proof.
+  intros Hk. induction syms as [|x r IH]; cbn [fold_right]; [exact Hk|]. disc. exact IH.
+Qed.
+
+Lemma bal_import_file_prog p fid syms : bal (import_file_prog p fid syms).
+Proof.
+  unfold bal, import_file_prog. disc.
+  destruct (mem_N fid (n_files nd)); disc.
+  destruct (check_syms syms (n_symbols nd0)); disc.
+  apply disc_commit_loop. disc.
+Qed.
+
+Lemma bal_add_ext_node_prog p m t o : bal (add_ext_node_prog p m t o).
+Proof.
+  unfold bal, add_ext_node_prog. disc. destruct (ext_find m t (n_exts nd)); disc.
+Qed.
+
+Lemma bal_add_extension_prog pkg m t o : bal (add_extension_prog pkg m t o).
+Proof.
+  unfold add_extension_prog.
+  destruct (negb (name_eqb pkg []) && negb (proper_prefix pkg m)); [unfold bal; disc|].
+  apply bal_bind; [apply bal_get_package_loop_prog|].
+  intros [p|]; [apply bal_add_ext_node_prog|disc].
+Qed.
+
+Lemma bal_add_exts_prog o exts : bal (add_exts_prog o exts).
+Proof.
+  induction exts as [|[[pkg m] t] r IH]; cbn [add_exts_prog]; [unfold bal; disc|].
+  apply bal_bind; [apply bal_add_extension_prog|]. intros [|e]; [apply IH|disc].
+Qed.
+
+Lemma bal_check_exts_prog exts : forall seen, bal (check_exts_prog exts seen).
+Proof.
+  induction exts as [|[[pkg m] t] r IH]; intros seen; cbn [check_exts_prog]; [unfold bal; disc|].
+  destruct (negb (name_eqb pkg []) && negb (proper_prefix pkg m)); [unfold bal; disc|].
+  apply bal_bind; [apply bal_get_package_loop_prog|].
+  intros [p|]; [|disc].
+  destruct (seen_ext m t seen); [disc|].
+  disc. destruct (ext_find m t (n_exts nd)); [disc|apply IH].
+Qed.
+
+Lemma bal_import_prog_gen fx f : bal (import_prog_gen fx f).
+Proof.
+  induction f as [fid pkg deps syms exts IHd] using file_ind2.
+  cbn [import_prog_gen].
+  apply bal_bind; [apply bal_import_packages_loop_prog|].
+  intros [[p|]|e]; [|disc|disc].
+  disc. destruct (mem_N fid (n_files nd)); [disc|].
+  apply bal_bind.
+  - induction IHd as [|d ds Hd _ IH]; [unfold bal; disc|].
+    apply bal_bind; [exact Hd|]. intros [|e]; [exact IH|disc].
+  - intros [|e]; [|disc].
+    apply bal_bind; [destruct fx; [apply bal_check_exts_prog|unfold bal; disc]|].
+    intros [e|].
+    + disc. destruct (mem_N fid (n_files nd0)); disc.
+    + apply bal_bind; [apply bal_import_file_prog|].
+      intros [[|] [|e]]; try (disc; fail). apply bal_add_exts_prog.
+Qed.
+
+Lemma bal_lookup_prog_fx n : bal (lookup_prog_fx n).
+Proof.
+  unfold lookup_prog_fx. apply bal_bind; [apply bal_get_package_loop_prog|]. intros [p|]; disc.
+Qed.
+Lemma bal_lookup_ext_prog_fx m t : bal (lookup_ext_prog_fx m t).
+Proof.
+  unfold lookup_ext_prog_fx. apply bal_bind; [apply bal_get_package_loop_prog|]. intros [p|]; disc.
+Qed.
+
+(* operations that do not look up: Import and AddExtension *)
+Definition is_import_op (o : op) : Prop :=
+  match o with OImport _ | OAddExt _ _ _ _ => True | _ => False end.
+
+Lemma bal_op_prog_import o : is_import_op o -> bal (op_prog o).
+Proof.
+  destruct o as [f|pkg m t ow|n|m t]; cbn; intros H; try contradiction; unfold op_prog, op_prog_with.
+  - apply bal_bind; [apply bal_import_prog_gen|]. intros r; disc.
+  - apply bal_bind; [apply bal_add_extension_prog|]. intros r; disc.
+Qed.
+
+Lemma bal_op_prog_with_fx impp o :
+  (forall f, bal (impp f)) -> bal (op_prog_with impp lookup_prog_fx lookup_ext_prog_fx o).
+Proof.
+  intros Hi. destruct o as [f|pkg m t ow|n|m t]; unfold op_prog_with.
+  - apply bal_bind; [apply Hi|]. intros r; disc.
+  - apply bal_bind; [apply bal_add_extension_prog|]. intros r; disc.
+  - apply bal_bind; [apply bal_lookup_prog_fx|]. intros r; disc.
+  - apply bal_bind; [apply bal_lookup_ext_prog_fx|]. intros r; disc.
+Qed.
+
+Lemma bal_ops_prog_with opp ops : (forall o, In o ops -> bal (opp o)) -> bal (ops_prog_with opp ops).
+Proof.
+  induction ops as [|o r IH]; intros H; cbn [ops_prog_with]; [unfold bal; disc|].
+  apply bal_bind; [apply H; now left|]. intros a.
+  apply bal_bind; [apply IH; intros o' Ho'; apply H; now right|]. intros l; disc.
+Qed.
+
+(* ---- the global invariant of the interleaving semantics ---- *)
+
+Definition thread_ok {R : Type} (th : thread R) : Prop :=
+  discQ (th_held th) (th_prog th) (fun _ _ => True).
+
+(* a write lock excludes every other holder *)
+Definition excl {R : Type} (ths : list (thread R)) : Prop :=
+  forall i j a b p, i <> j -> nth_error ths i = Some a -> nth_error ths j = Some b ->
+                    holds (th_held a) p true = true -> holds_any (th_held b) p = false.
+
+Definition GI {R : Type} (s : cstate R) : Prop :=
+  Forall thread_ok (cs_threads s) /\ excl (cs_threads s).
+
+Lemma nth_error_replace_nth {A : Type} (l : list A) : forall t x j,
+  nth_error (replace_nth l t x) j =
+  if Nat.eqb j t then (match nth_error l t with Some _ => Some x | None => None end) else nth_error l j.
+Proof.
+  induction l as [|y l IH]; intros t x j; cbn [replace_nth].
+  - destruct (Nat.eqb j t); destruct j, t; reflexivity.
+  - destruct t as [|t]; destruct j as [|j]; cbn; try reflexivity. apply IH.
+Qed.
+
+Lemma Forall_replace_nth {A : Type} (P : A -> Prop) (l : list A) : forall t x,
+  Forall P l -> P x -> Forall P (replace_nth l t x).
+Proof.
+  induction l as [|y l IH]; intros t x Hl Hx; cbn [replace_nth]; [constructor|].
+  inversion Hl; subst. destruct t; constructor; auto.
+Qed.
+
+Lemma others_hold_at_false {R : Type} (ths : list (thread R)) : forall i t p w,
+  others_hold_at ths i t p w = false ->
+  forall j b, nth_error ths j = Some b -> (i + j)%nat <> t ->
+              (if w then holds (th_held b) p true else holds_any (th_held b) p) = false.
+Proof.
+  induction ths as [|th ths IH]; intros i t p w H j b Hj Hne; [destruct j; discriminate|].
+  cbn [others_hold_at] in H. apply orb_false_iff in H as [H1 H2].
+  destruct j as [|j]; cbn in Hj.
+  - inversion Hj; subst b. rewrite Nat.add_0_r in Hne.
+    destruct (Nat.eqb i t) eqn:E; [apply Nat.eqb_eq in E; contradiction|]. exact H1.
+  - apply (IH (S i) t p w H2 j b Hj). lia.
+Qed.
+
+Lemma holds_cons h q w' p w :
+  holds ((q, w') :: h) p w = (name_eqb p q && Bool.eqb w w') || holds h p w.
+Proof. reflexivity. Qed.
+
+Lemma holds_any_cons h q w' p :
+  holds_any ((q, w') :: h) p = name_eqb p q || holds_any h p.
+Proof.
+  unfold holds_any. rewrite !holds_cons. destruct (name_eqb p q), w'; cbn; try reflexivity.
+  now rewrite orb_true_r.
+Qed.
+
+Lemma holds_release h p w q w' : holds (release h p w) q w' = true -> holds h q w' = true.
+Proof.
+  induction h as [|[r wr] h IH]; cbn [release]; [auto|].
+  destruct (name_eqb p r && Bool.eqb w wr).
+  - intros H. rewrite holds_cons, H. apply orb_true_r.
+  - rewrite !holds_cons. intros H. apply orb_true_iff in H as [H|H]; [now rewrite H|].
+    rewrite (IH H). apply orb_true_r.
+Qed.
+
+Lemma holds_any_release h p w q : holds_any (release h p w) q = true -> holds_any h q = true.
+Proof.
+  unfold holds_any. intros H. apply orb_true_iff in H as [H|H]; apply holds_release in H; rewrite H;
+    [reflexivity|apply orb_true_r].
+Qed.
+
+Lemma holds_true_any h p : holds h p true = true -> holds_any h p = true.
+Proof. unfold holds_any. now intros ->. Qed.
+
+(* replacing thread t by a thread whose locks are justified keeps the invariant *)
+Lemma GI_replace {R : Type} (s : cstate R) t th th' T' :
+  GI s -> nth_error (cs_threads s) t = Some th -> thread_ok th' ->
+  (forall p, holds (th_held th') p true = true ->
+             holds (th_held th) p true = true \/
+             (forall j b, j <> t -> nth_error (cs_threads s) j = Some b -> holds_any (th_held b) p = false)) ->
+  (forall p, holds_any (th_held th') p = true ->
+             holds_any (th_held th) p = true \/
+             (forall j b, j <> t -> nth_error (cs_threads s) j = Some b -> holds (th_held b) p true = false)) ->
+  GI (mkCState T' (replace_nth (cs_threads s) t th')).
+Proof.
+  intros [Hok Hex] Ht Hth' Hw Ha. split; cbn [cs_threads].
+  - now apply Forall_replace_nth.
+  - intros i j a b p Hij Hi Hj Hp.
+    rewrite nth_error_replace_nth in Hi, Hj. rewrite Ht in Hi, Hj.
+    destruct (Nat.eqb i t) eqn:Ei; destruct (Nat.eqb j t) eqn:Ej.
+    + apply Nat.eqb_eq in Ei, Ej. congruence.
+    + apply Nat.eqb_eq in Ei. apply Nat.eqb_neq in Ej. inversion Hi; subst a i.
+      destruct (Hw p Hp) as [Hold|Hnew].
+      * eapply Hex; [| exact Ht | exact Hj | exact Hold]. congruence.
+      * apply (Hnew j b); auto.
+    + apply Nat.eqb_neq in Ei. apply Nat.eqb_eq in Ej. inversion Hj; subst b j.
+      destruct (holds_any (th_held th') p) eqn:Eh; [|reflexivity].
+      destruct (Ha p Eh) as [Hold|Hnew].
+      * rewrite <- Hold. eapply Hex; [| exact Hi | exact Ht | exact Hp]. exact Ei.
+      * rewrite (Hnew i a Ei Hi) in Hp. discriminate.
+    + eapply Hex; eauto.
+Qed.
+
+Lemma step_GI {R : Type} (s s' : cstate R) t : GI s -> step s t = Some s' -> GI s'.
+Proof.
+  intros HG. unfold step. destruct (nth_error (cs_threads s) t) as [th|] eqn:Et; [|discriminate].
+  assert (Hth : thread_ok th).
+  { destruct HG as [Hok _]. rewrite Forall_forall in Hok. apply Hok. eapply nth_error_In; eauto. }
+  destruct th as [h m]. unfold thread_ok in Hth. cbn [th_held th_prog] in *.
+  destruct m as [r|p k|p k|p k|p k|p f k|p f u k|p c k]; cbn [discQ] in Hth.
+  - discriminate.
+  - (* RLock *)
+    destruct (others_hold_at (cs_threads s) 0 t p true || holds_any h p) eqn:E; [discriminate|].
+    apply orb_false_iff in E as [Eo Eh]. intros H; inversion H; subst s'; clear H.
+    eapply GI_replace; [exact HG|exact Et|exact (proj2 Hth)| |]; cbn [th_held].
+    + intros q Hq. rewrite holds_cons in Hq. cbn [Bool.eqb] in Hq. rewrite andb_false_r in Hq. now left.
+    + intros q Hq. rewrite holds_any_cons in Hq. apply orb_true_iff in Hq as [Hq|Hq]; [|now left].
+      right. intros j b Hj Hb. apply name_eqb_eq in Hq. subst q.
+      apply (others_hold_at_false _ _ _ _ _ Eo j b Hb). cbn. congruence.
+  - (* RUnlock *)
+    destruct (holds h p false); [|discriminate]. intros H; inversion H; subst s'; clear H.
+    eapply GI_replace; [exact HG|exact Et|exact (proj2 Hth)| |]; cbn [th_held].
+    + intros q Hq. left. eapply holds_release; eauto.
+    + intros q Hq. left. eapply holds_any_release; eauto.
+  - (* WLock *)
+    destruct (others_hold_at (cs_threads s) 0 t p false || holds_any h p) eqn:E; [discriminate|].
+    apply orb_false_iff in E as [Eo Eh]. intros H; inversion H; subst s'; clear H.
+    eapply GI_replace; [exact HG|exact Et|exact (proj2 Hth)| |]; cbn [th_held].
+    + intros q Hq. rewrite holds_cons in Hq. apply orb_true_iff in Hq as [Hq|Hq]; [|now left].
+      right. intros j b Hj Hb. apply andb_true_iff in Hq as [Hq _]. apply name_eqb_eq in Hq. subst q.
+      apply (others_hold_at_false _ _ _ _ _ Eo j b Hb). cbn. congruence.
+    + intros q Hq. rewrite holds_any_cons in Hq. apply orb_true_iff in Hq as [Hq|Hq]; [|now left].
+      right. intros j b Hj Hb. apply name_eqb_eq in Hq. subst q.
+      assert (Hx : holds_any (th_held b) p = false).
+      { apply (others_hold_at_false _ _ _ _ _ Eo j b Hb). cbn. congruence. }
+      destruct (holds (th_held b) p true) eqn:Ew; [|reflexivity].
+      apply holds_true_any in Ew. congruence.
+  - (* WUnlock *)
+    destruct (holds h p true); [|discriminate]. intros H; inversion H; subst s'; clear H.
+    eapply GI_replace; [exact HG|exact Et|exact (proj2 Hth)| |]; cbn [th_held].
+    + intros q Hq. left. eapply holds_release; eauto.
+    + intros q Hq. left. eapply holds_any_release; eauto.
+  - (* Rd *)
+    intros H; inversion H; subst s'; clear H.
+    eapply GI_replace; [exact HG|exact Et|exact (proj2 Hth _)| |]; cbn [th_held]; intros q Hq; now left.
+  - (* Wr *)
+    intros H; inversion H; subst s'; clear H.
+    eapply GI_replace; [exact HG|exact Et|exact (proj2 Hth)| |]; cbn [th_held]; intros q Hq; now left.
+  - (* NewChild *)
+    intros H; inversion H; subst s'; clear H.
+    eapply GI_replace; [exact HG|exact Et|exact (proj2 Hth)| |]; cbn [th_held]; intros q Hq; now left.
+Qed.
+
+Lemma run_sched_GI {R : Type} sched : forall (s : cstate R), GI s -> GI (run_sched s sched).
+Proof.
+  induction sched as [|t r IH]; intros s HG; cbn [run_sched]; [exact HG|].
+  destruct (step s t) as [s'|] eqn:E; [|now apply IH]. apply IH. eapply step_GI; eauto.
+Qed.
+
+Lemma init_GI {R : Type} T (progs : list (prog R)) :
+  Forall bal progs -> GI (init_state T progs).
+Proof.
+  intros Hb. split; unfold init_state; cbn [cs_threads].
+  - induction Hb as [|m ms Hm _ IH]; cbn [map]; constructor; [|exact IH].
+    unfold thread_ok. cbn [th_held th_prog]. eapply discQ_mono; [|exact Hm]. auto.
+  - intros i j a b p _ Hi _ Hp. apply nth_error_In in Hi. apply in_map_iff in Hi as [m [Hm _]].
+    subst a. cbn in Hp. discriminate.
+Qed.
+
+Lemma thread_ok_access {R : Type} (th : thread R) : thread_ok th -> access_ok th = true.
+Proof.
+  destruct th as [h m]. unfold thread_ok, access_ok. cbn [th_held th_prog].
+  destruct m; cbn [discQ next_access]; try reflexivity; intros [H _]; exact H.
+Qed.
+
+Lemma GI_no_race {R : Type} (s : cstate R) i j : GI s -> race_at s i j = false.
+Proof.
+  intros [Hok Hex]. unfold race_at.
+  destruct (nth_error (cs_threads s) i) as [a|] eqn:Ei; [|reflexivity].
+  destruct (nth_error (cs_threads s) j) as [b|] eqn:Ej; [|reflexivity].
+  destruct (Nat.eqb i j) eqn:Eij; [reflexivity|]. apply Nat.eqb_neq in Eij. cbn [negb andb].
+  rewrite Forall_forall in Hok.
+  assert (Ha : thread_ok a) by (apply Hok; eapply nth_error_In; eauto).
+  assert (Hb : thread_ok b) by (apply Hok; eapply nth_error_In; eauto).
+  destruct (conflicting (next_access (th_prog a)) (next_access (th_prog b))) eqn:Ec; [|reflexivity].
+  exfalso. unfold conflicting in Ec.
+  destruct (next_access (th_prog a)) as [[[p f] w]|] eqn:Na; [|discriminate].
+  destruct (next_access (th_prog b)) as [[[q g] w']|] eqn:Nb; [|discriminate].
+  apply andb_true_iff in Ec as [Ec Hw]. apply andb_true_iff in Ec as [Epq _].
+  apply name_eqb_eq in Epq. subst q.
+  pose proof (thread_ok_access a Ha) as Aa. pose proof (thread_ok_access b Hb) as Ab.
+  unfold access_ok in Aa, Ab. rewrite Na in Aa. rewrite Nb in Ab.
+  destruct w.
+  - assert (Hb2 : holds_any (th_held b) p = true) by (destruct w'; [now apply holds_true_any|exact Ab]).
+    rewrite (Hex i j a b p Eij Ei Ej Aa) in Hb2. discriminate.
+  - cbn in Hw. subst w'.
+    assert (Hne : j <> i) by congruence.
+    rewrite (Hex j i b a p Hne Ej Ei Ab) in Aa. discriminate.
+Qed.
+
+(* the two theorems for any set of balanced goroutine programs *)
+Lemma lock_discipline_bal {R : Type} T (progs : list (prog R)) sched t th :
+  Forall bal progs ->
+  nth_error (cs_threads (run_sched (init_state T progs) sched)) t = Some th -> access_ok th = true.
+Proof.
+  intros Hb Ht. pose proof (run_sched_GI sched _ (init_GI T progs Hb)) as [Hok _].
+  rewrite Forall_forall in Hok. apply thread_ok_access, Hok. eapply nth_error_In; eauto.
+Qed.
+
+Lemma model_drf_bal {R : Type} T (progs : list (prog R)) sched i j :
+  Forall bal progs -> race_at (run_sched (init_state T progs) sched) i j = false.
+Proof. intros Hb. apply GI_no_race, run_sched_GI, init_GI, Hb. Qed.
+
+Lemma Forall_bal_ops_import opss :
+  Forall (Forall is_import_op) opss -> Forall bal (map ops_prog opss).
+Proof.
+  intros H. apply Forall_forall. intros m Hm. apply in_map_iff in Hm as [ops [E Hin]]. subst m.
+  rewrite Forall_forall in H. specialize (H ops Hin). rewrite Forall_forall in H.
+  apply bal_ops_prog_with. intros o Ho. apply bal_op_prog_import. now apply H.
+Qed.
+
+Lemma Forall_bal_ops_fx impp opss :
+  (forall f, bal (impp f)) ->
+  Forall bal (map (ops_prog_with (op_prog_with impp lookup_prog_fx lookup_ext_prog_fx)) opss).
+Proof.
+  intros Hi. apply Forall_forall. intros m Hm. apply in_map_iff in Hm as [ops [E Hin]]. subst m.
+  apply bal_ops_prog_with. intros o _. now apply bal_op_prog_with_fx.
+Qed.
+
+(* pinned code, import paths: goroutines that only Import / AddExtension *)
+Lemma lock_discipline_imports_lemma T opss sched t th :
+  Forall (Forall is_import_op) opss ->
+  nth_error (cs_threads (run_sched (init_state T (map ops_prog opss)) sched)) t = Some th ->
+  access_ok th = true.
+Proof. intros H. apply lock_discipline_bal. now apply Forall_bal_ops_import. Qed.
+
+Lemma model_drf_imports_lemma T opss sched i j :
+  Forall (Forall is_import_op) opss ->
+  race_at (run_sched (init_state T (map ops_prog opss)) sched) i j = false.
+Proof. intros H. apply model_drf_bal. now apply Forall_bal_ops_import. Qed.
+
+(* repaired lookups (with either Import): every operation *)
+Lemma lock_discipline_fx_lemma fx T opss sched t th :
+  nth_error (cs_threads (run_sched (init_state T
+     (map (ops_prog_with (op_prog_with (import_prog_gen fx) lookup_prog_fx lookup_ext_prog_fx)) opss)) sched)) t = Some th ->
+  access_ok th = true.
+Proof. apply lock_discipline_bal. apply Forall_bal_ops_fx. apply bal_import_prog_gen. Qed.
+
+Lemma model_drf_fx_lemma fx T opss sched i j :
+  race_at (run_sched (init_state T
+     (map (ops_prog_with (op_prog_with (import_prog_gen fx) lookup_prog_fx lookup_ext_prog_fx)) opss)) sched) i j = false.
+Proof. apply model_drf_bal. apply Forall_bal_ops_fx. apply bal_import_prog_gen. Qed.
+
+(* pinned code with a lookup: the final read of Lookup holds no lock, and it can be about to
+   happen while an Import is about to write the same map under its write lock *)
+Definition wM : file := File 0 [1%N] [] [[1%N; 7%N]] [].
+Definition wM2 : file := File 1 [1%N] [] [[1%N; 8%N]] [].
+Definition race_threads : list (list op) := [[OImport wM2]; [OLookup [1%N; 7%N]]].
+Definition race_init : table := fst (import wM []).
+Definition race_sched : list nat := repeat 1%nat 8 ++ repeat 0%nat 12.
+
+Lemma lock_discipline_refuted_lemma :
+  exists T opss sched t th,
+    nth_error (cs_threads (run_sched (init_state T (map ops_prog opss)) sched)) t = Some th /\
+    access_ok th = false /\
+    next_access (th_prog th) = Some ([1%N], FSymbols, false) /\ th_held th = [].
+Proof.
+  exists race_init, race_threads, race_sched, 1%nat.
+  eexists. split; [vm_compute; reflexivity|]. repeat split.
+Qed.
+
+Lemma model_race_witness_lemma :
+  exists T opss sched, race_at (run_sched (init_state T (map ops_prog opss)) sched) 0 1 = true.
+Proof. exists race_init, race_threads, race_sched. vm_compute. reflexivity. Qed.
